@@ -77,6 +77,9 @@ class AntecedentMonitor:
                 ctx.hit("out_of_domain:custom operator")
                 return
         text = rule.antecedent.text
+        if "activation_degree" in vars(rule.antecedent) or "activate_with" in vars(rule):
+            ctx.hit("out_of_domain:method replaced on the instance (mock)")
+            return
         try:
             tree, how = self.tree_of(text)
         except (W.RuleSyntax, IndexError):
